@@ -34,6 +34,8 @@ func main() {
 		os.Exit(cmdReplay(os.Args[2:]))
 	case "census":
 		cmdCensus(os.Args[2:])
+	case "conform":
+		os.Exit(cmdConform(os.Args[2:]))
 	case "selftest":
 		os.Exit(cmdSelftest(os.Args[2:]))
 	default:
